@@ -958,21 +958,29 @@ class Lib:
 
     def _minmax(self, I, a, k, n, is_max):
         key = k.get("key")
+        if len(a) == 1 and isinstance(a[0], Obj):
+            m = I.lookup_class_attr(a[0].cls, "__iter__")
+            if m is not _MISSING:
+                it = I.call(Bound(m, a[0]), [], {}, n)
+                if isinstance(it, (SSeq, SRange)):
+                    a = [it] + list(a[1:])
         if len(a) == 1 and isinstance(a[0], (SSeq, SRange)) and self.symbolic_comprehension_source(I, a[0]) and key is None:
             from .ndarray import idxseq
-            seq = idxseq(I, a[0], n)
+            seq = idxseq(I, a[0], n)       # elements compared through their integer value (periods: __index__ == serial)
             if seq is None or seq.affine is None:
                 raise Unsupported("min/max over a non-affine sequence of symbolic length")
             a0, step = seq.affine
             ln = to_z3(seq.length)
-            last = a0 + (ln - 1) * step
             if not I.ctx.branch(ln > 0):
                 if "default" in k:
                     return k["default"]
                 I.raise_exc(ValueError, "min()/max() arg is an empty sequence")
             first_is_min = step > 0
             pick_first = first_is_min != is_max
-            return SV(z3.simplify(a0 if pick_first else last))
+            src = a[0]
+            if isinstance(src, SRange):
+                return SV(z3.simplify(a0 if pick_first else a0 + (ln - 1) * step))
+            return src.getter(SV(z3.IntVal(0)) if pick_first else SV(z3.simplify(ln - 1)))     # the element itself (e.g. a Period)
         if len(a) == 1:
             items = I.iterate(a[0], n)
         else:
@@ -1039,6 +1047,21 @@ class Lib:
 
     def b_zip(self, I, a, k, n):
         from .interp import LazyGen
+        a = list(a)
+        for j, x in enumerate(a):
+            if isinstance(x, Obj):
+                m = I.lookup_class_attr(x.cls, "__iter__")
+                if m is not _MISSING:
+                    it = I.call(Bound(m, x), [], {}, n)
+                    if isinstance(it, (SSeq, SRange)):
+                        a[j] = it
+        if a and all(isinstance(x, (SSeq, SRange)) for x in a) and any(self.symbolic_comprehension_source(I, x) for x in a):
+            seqs = [x if isinstance(x, SSeq) else SSeq(self.range_len(I, x), (lambda i, x=x: I.binop("+", x.start, I.binop("*", i, x.step))), "tuple") for x in a]
+            ln = to_z3(seqs[0].length)
+            for q in seqs[1:]:
+                ln = z3.If(to_z3(q.length) < ln, to_z3(q.length), ln)
+            from .ndarray import as_dim
+            return SSeq(as_dim(z3.simplify(ln)), lambda i: tuple(q.getter(i) for q in seqs), "tuple")
 
         def is_lazy(x):
             return isinstance(x, LazyGen) or (isinstance(x, LibObj) and x.kind == "inf_repeat")
